@@ -109,6 +109,7 @@ def surroundings(tree, path):
     For a method `C.m`: top = other top-level statements, with class C represented by its
     header + siblings; siblings = dumps of C's other members in order."""
     path = [p for p in path if p]
+    tree = _norm_docstrings(tree)  # the module docstring is a statement of its own: normalise before dumping statements
     res = resolve(tree, path)
     out = {"found": res is not None, "top": [], "siblings": None, "index": None}
     if res is None:
